@@ -357,6 +357,8 @@ def run(R):
     n = N_SEQ[R.tier]
     if R.shard == 1 % R.nshards:
         fixed_sequences(R)
+    if R.shard == 2 % R.nshards:
+        long_lived_listener(R)
     for i in range(n):
         if not R.mine(i):
             continue
@@ -393,6 +395,68 @@ def run(R):
         run_items(R, items, "gen", v6=v6)
 
 
+def long_lived_listener(R):
+    """ONE listener sees well over a thousand datagrams that are not for it (foreign
+    communities, truncated, garbage) in bursts, with a valid notification after every
+    burst: the valid one after the 1300th ignored datagram is delivered like the first."""
+    rng = R.rng("long-lived")
+    events = []
+    loop = asyncio.new_event_loop()
+    loop.set_exception_handler(lambda l, ctx: None)
+
+    async def callback(trap):
+        events.append(trap.value.request_id)
+
+    port = free_port()
+    sock = socket.socket(socket.AF_INET, socket.SOCK_DGRAM)
+    sock.bind(("127.0.0.1", 0))
+    ignored = 0
+    missing = None
+    with warnings.catch_warnings(record=True):
+        warnings.simplefilter("always")
+        try:
+            register_trap_callback(callback, listen_address="127.0.0.1", port=port, credentials=V2C("public"), loop=loop)
+            for burst in range(24):
+                for j in range(56):
+                    it = _gen_item(rng, 5000 + j)
+                    while it["cls"] in ("valid", "otherversion-samecommunity"):
+                        it = _gen_item(rng, 5000 + j)
+                    sock.sendto(it["data"], ("127.0.0.1", port))
+                    ignored += 1
+                    if j % 8 == 7:
+                        loop.run_until_complete(asyncio.sleep(0.002))
+                loop.run_until_complete(asyncio.sleep(0.03))
+                vbs = [(UPTIME, ("tt", burst)), (TRAPOID, ("oid", (1, 3, 6, 1, 4, 1, 4242, 0, burst)))]
+                rid = 7000 + burst
+                sock.sendto(ber.enc_community_message(1, b"public", {"type": ber.PDU_TRAP, "request_id": rid, "error_status": 0, "error_index": 0, "varbinds": vbs}), ("127.0.0.1", port))
+                for _ in range(400):
+                    loop.run_until_complete(asyncio.sleep(0.005))
+                    if rid in events:
+                        break
+                if rid not in events:
+                    missing = (burst, ignored)
+                    break
+        finally:
+            sock.close()
+            try:
+                for t in asyncio.all_tasks(loop):
+                    t.cancel()
+                loop.run_until_complete(loop.shutdown_asyncgens())
+            finally:
+                for tr in list(getattr(loop, "_transports", {}).values()):
+                    tr.close()
+                loop.run_until_complete(asyncio.sleep(0))
+                loop.close()
+    R.evaluations += 1
+    R.case(("c19-long-lived",), True)
+    R.mon["datagrams_sent"] += ignored + 24
+    if missing:
+        R.violation({"v6": False, "items": [], "long_lived": True}, "a long-lived listener: the valid notification after %d ignored datagrams (burst %d) was never delivered; %d earlier ones were" % (missing[1], missing[0], len(events)), None)
+        return
+    R.mon["long_lived_listener_ok"] += 1
+    R.mon["ignored_datagrams_on_one_listener"] += ignored
+
+
 def fixed_sequences(R):
     """A valid notification from each particular source port (the ends of the port
     range included), and every foreign community in front of a valid notification."""
@@ -420,6 +484,9 @@ def fixed_sequences(R):
 
 
 def replay(R, v):
+    if v["case"].get("long_lived"):
+        long_lived_listener(R)
+        return
     items = []
     for it in v["case"]["items"]:
         vbs = None
